@@ -5,6 +5,7 @@ package main
 import (
 	"fmt"
 	"go/token"
+	"go/types"
 	"sort"
 
 	"golang.org/x/tools/go/ssa"
@@ -545,6 +546,13 @@ func c19Handlers(c *Ctx, p *Prog) {
 		}
 		if p.FuncKey(s.Fn) != "obfs4proxy:(*termMonitor).wait" {
 			bad = "written in " + p.FuncKey(s.Fn)
+		}
+		// the counter lives in the one monitor object: the updating method works on it through a pointer
+		// (with a value receiver every call of wait counts on a copy of its own and forgets it on return)
+		if recv := s.Fn.Signature.Recv(); recv != nil {
+			if _, isPtr := recv.Type().Underlying().(*types.Pointer); !isPtr {
+				bad = p.FuncKey(s.Fn) + " has a value receiver: the update at " + p.InstrPos(s.Instr) + " is made on a copy of the monitor and lost when the call returns"
+			}
 		}
 		b, ok := unspill(s.Val).(*ssa.BinOp)
 		if !ok || b.Op != token.ADD || !isFieldLoad(b.X, "obfs4proxy.termMonitor", "numHandlers") {
